@@ -150,7 +150,7 @@ def run_check(prop, argv):
         cases = corpus + prop.gen(tier, R)
     recs = evaluate(prop, cases, info, binaries)
     disagreements, oracle_fail, known_hits = judge(prop, recs)
-    ctx = {'recs': recs, 'binaries': binaries, 'info': info, 'tier': tier, 'R': R, 'replaying': replaying}
+    ctx = {'recs': recs, 'binaries': binaries, 'info': info, 'tier': tier, 'R': R, 'replaying': replaying, 'seed': SEED}
     post_known = {}
     for line, desc, kn in ([] if replaying else prop.post(ctx)):
         if kn:
